@@ -235,6 +235,16 @@ type RecRaster struct {
 	OnOp func(RKind)
 	// NoSnap disables paint snapshots (C02 pokes paints itself).
 	NoSnap bool
+	// CountOnly: calls are counted in N and not logged (very long inputs).
+	CountOnly bool
+	N         int
+}
+
+func (z *RecRaster) log(op RastOp) {
+	z.N++
+	if !z.CountOnly {
+		z.Ops = append(z.Ops, op)
+	}
 }
 
 func (z *RecRaster) note(k RKind) {
@@ -247,7 +257,7 @@ func (z *RecRaster) Reset(w, h int) {
 	z.note(RReset)
 	z.w, z.h = w, h
 	z.penX, z.penY, z.firstX, z.firstY = 0, 0, 0, 0
-	z.Ops = append(z.Ops, RastOp{K: RReset, W: w, H: h})
+	z.log(RastOp{K: RReset, W: w, H: h})
 }
 func (z *RecRaster) Size() image.Point       { return image.Point{z.w, z.h} }
 func (z *RecRaster) Bounds() image.Rectangle { return image.Rect(0, 0, z.w, z.h) }
@@ -255,27 +265,27 @@ func (z *RecRaster) Pen() (x, y float32)     { return z.penX, z.penY }
 func (z *RecRaster) MoveTo(ax, ay float32) {
 	z.note(RMoveTo)
 	z.penX, z.penY, z.firstX, z.firstY = ax, ay, ax, ay
-	z.Ops = append(z.Ops, RastOp{K: RMoveTo, F: [6]float32{ax, ay}})
+	z.log(RastOp{K: RMoveTo, F: [6]float32{ax, ay}})
 }
 func (z *RecRaster) LineTo(bx, by float32) {
 	z.note(RLineTo)
 	z.penX, z.penY = bx, by
-	z.Ops = append(z.Ops, RastOp{K: RLineTo, F: [6]float32{bx, by}})
+	z.log(RastOp{K: RLineTo, F: [6]float32{bx, by}})
 }
 func (z *RecRaster) QuadTo(bx, by, cx, cy float32) {
 	z.note(RQuadTo)
 	z.penX, z.penY = cx, cy
-	z.Ops = append(z.Ops, RastOp{K: RQuadTo, F: [6]float32{bx, by, cx, cy}})
+	z.log(RastOp{K: RQuadTo, F: [6]float32{bx, by, cx, cy}})
 }
 func (z *RecRaster) CubeTo(bx, by, cx, cy, dx, dy float32) {
 	z.note(RCubeTo)
 	z.penX, z.penY = dx, dy
-	z.Ops = append(z.Ops, RastOp{K: RCubeTo, F: [6]float32{bx, by, cx, cy, dx, dy}})
+	z.log(RastOp{K: RCubeTo, F: [6]float32{bx, by, cx, cy, dx, dy}})
 }
 func (z *RecRaster) ClosePath() {
 	z.note(RClosePath)
 	z.penX, z.penY = z.firstX, z.firstY
-	z.Ops = append(z.Ops, RastOp{K: RClosePath})
+	z.log(RastOp{K: RClosePath})
 }
 func (z *RecRaster) Draw(r image.Rectangle, src image.Image, sp image.Point) {
 	z.note(RDraw)
@@ -296,7 +306,7 @@ func (z *RecRaster) Draw(r image.Rectangle, src image.Image, sp image.Point) {
 			g.Transform()
 		}
 	}
-	z.Ops = append(z.Ops, op)
+	z.log(op)
 }
 
 var _ raster.Rasterizer = (*RecRaster)(nil)
